@@ -179,16 +179,17 @@ def _is_known(known, prop, key):
     return None
 
 
-def shrink(check, exp, viol, ctx, budget=24, log=print):
-    """greedy: accept a candidate if the same violation clause persists"""
+def shrink(check, exp, viol, ctx, budget=24, log=print, wall_s=240.0):
+    """greedy: accept a candidate if the same violation clause persists (bounded in candidates and wall time)"""
     target = viol["clause"]
     cur, cur_v = exp, viol
     tried = 0
     improved = True
-    while improved and tried < budget:
+    t_end = time.time() + wall_s
+    while improved and tried < budget and time.time() < t_end:
         improved = False
         for cand in check.shrink(cur):
-            if tried >= budget:
+            if tried >= budget or time.time() > t_end:
                 break
             tried += 1
             outcomes, vs, err = _run_exp(check, cand, ctx)
